@@ -53,7 +53,12 @@ MUTANTS = [
     ("thrjob-noexeclock", "scheduler/threading/job.py", "        with self.__exec_lock:\n            if not self.has_attempts_remaining:", "        if True:\n            if not self.has_attempts_remaining:", ["C16", "C14"]),
     ("thrjob-norecheck", "scheduler/threading/job.py", "            if not self.has_attempts_remaining:\n                # an overlapping exec_jobs call has used up the budget meanwhile\n                return\n", "", ["C14"]),
     ("aio-sleep-period", "scheduler/asyncio/scheduler.py", "sleep_seconds: float = job.timedelta(reference_dt).total_seconds()", "sleep_seconds: float = abs(job.timedelta(reference_dt).total_seconds())", ["C17"]),
-    ("aio-ref-before", "scheduler/asyncio/scheduler.py", "                await job._exec(logger=self._logger)  # pylint: disable=protected-access\n                reference_dt = dt.datetime.now(tz=self.__tzinfo)", "                reference_dt = dt.datetime.now(tz=self.__tzinfo)\n                await job._exec(logger=self._logger)  # pylint: disable=protected-access", ["C17"]),
+    ("aio-ref-before", "scheduler/asyncio/scheduler.py", "                await job._exec(logger=self._logger)  # pylint: disable=protected-access\n\n                reference_dt = dt.datetime.now(tz=self.__tzinfo)", "                reference_dt = dt.datetime.now(tz=self.__tzinfo)\n                await job._exec(logger=self._logger)  # pylint: disable=protected-access\n", ["C17"]),
+    ("aio-no-registry-on-schedule", "scheduler/asyncio/scheduler.py", "        self._jobs[job] = task\n\n        return job", "        if job.has_attempts_remaining:\n            self._jobs[job] = task\n\n        return job", ["C18", "C11"]),
+    ("aiojob-nofail-count", "scheduler/asyncio/job.py", "            self._BaseJob__failed_attempts += 1  # type: ignore\n        self._BaseJob__attempts += 1", "            pass\n        self._BaseJob__attempts += 1", ["C10"]),
+    ("aiojob-noattempt-on-fail", "scheduler/asyncio/job.py", "            self._BaseJob__failed_attempts += 1  # type: ignore\n        self._BaseJob__attempts += 1", "            self._BaseJob__failed_attempts += 1  # type: ignore\n            return\n        self._BaseJob__attempts += 1", ["C10", "C06"]),
+    ("aiojob-nolog", "scheduler/asyncio/job.py", "            logger.exception(\"Unhandled exception in `%r`!\", self)\n            self._BaseJob__failed", "            self._BaseJob__failed", ["C10"]),
+    ("aio-once-tags-nonset", "scheduler/asyncio/scheduler.py", "SENTINEL", "x", []),
     ("aio-nocancel", "scheduler/asyncio/scheduler.py", "            _: bool = task.cancel()", "            _ = task", ["C18"]),
     ("aio-nounregister", "scheduler/asyncio/scheduler.py", "            self._jobs.pop(job, None)", "            pass", ["C18", "C17"]),
     ("util-cutoff-ge", "scheduler/base/scheduler_util.py", "    if len(string) > max_length:", "    if len(string) >= max_length:", ["C20"]),
